@@ -616,6 +616,15 @@ func c01ArrayVariable(c *Ctx, rule string) {
 					if vc.Parent() == d.b.Parent() && (vc.Block() == d.b || vc.Block().Dominates(d.b)) {
 						after = true
 					}
+					// the call sits in a helper of the array case that makes it on every way to its exits, and
+					// the helper has been called by the time this exit is reached
+					if vc.Parent() != d.b.Parent() && inArr[vc.Parent()] {
+						for _, site := range sitesAlwaysLeadingTo(d.b.Parent(), vc, inArr, 0) {
+							if site.Block() == d.b || site.Block().Dominates(d.b) {
+								after = true
+							}
+						}
+					}
 				}
 				if !noVar && !after && depth < 6 {
 					if cl, idx := resultCall(d.v); cl != nil {
@@ -638,6 +647,48 @@ func c01ArrayVariable(c *Ctx, rule string) {
 	if n == 0 {
 		c.R.Break(rule + ": no success exit of the array case found")
 	}
+}
+
+// sitesAlwaysLeadingTo: the calls in fn after which the call `target` (in a helper, `within` being the helpers that
+// may be looked into) is known to have been made: calls of the helper that holds target where target's block
+// dominates every return of the helper, and calls of helpers that in turn always make such a call.
+func sitesAlwaysLeadingTo(fn *ssa.Function, target *ssa.Call, within map[*ssa.Function]bool, depth int) []*ssa.Call {
+	if depth > 4 {
+		return nil
+	}
+	var out []*ssa.Call
+	ssau.Instrs(fn, func(in ssa.Instruction) {
+		cl, ok := in.(*ssa.Call)
+		if !ok {
+			return
+		}
+		h := cl.Common().StaticCallee()
+		if h == nil || h.Blocks == nil || !within[h] || h == fn {
+			return
+		}
+		var inner []*ssa.Call
+		if target.Parent() == h {
+			inner = []*ssa.Call{target}
+		} else {
+			inner = sitesAlwaysLeadingTo(h, target, within, depth+1)
+		}
+		for _, ic := range inner {
+			always, nret := true, 0
+			for _, b := range h.Blocks {
+				if _, isRet := b.Instrs[len(b.Instrs)-1].(*ssa.Return); isRet {
+					nret++
+					if b != ic.Block() && !ic.Block().Dominates(b) {
+						always = false
+					}
+				}
+			}
+			if always && nret > 0 {
+				out = append(out, cl)
+				return
+			}
+		}
+	})
+	return out
 }
 
 // resultCall: the call a value is a result of (the call itself, or the call whose tuple it is extracted from) and
